@@ -59,9 +59,15 @@ def make_cases(ctx, rnd):
     hazards = ["31.04.2020", "31.04.", "29.2.", "30.2.2019", "31. april", "29. feb 2019", "28.2.2019 - 30", "29.2. - 5.3.2019",
                "early early early early morning", "very early early late morning", "23:30-3:35", "9-5", "12:35-0:30", "12am", "0:00 - 0:00",
                "tomorrow 23:30 - 3:35", "31.12.2019 23:59 for 2 minutes", "31.1.2020 for 1 month", "29.2.2020 for 12 months",
-               "monday 31.", "feb 30", "8pm", "at 8", "8 8", "mon - fri", "1.1. - 31.12.", "first", "last", "spätestens 31.04.", "24.12. 17 uhr"]
+               "monday 31.", "feb 30", "8pm", "at 8", "8 8", "mon - fri", "1.1. - 31.12.", "first", "last", "spätestens 31.04.", "24.12. 17 uhr",
+               # century years are not leap years unless divisible by 400
+               "29.2.1900", "29. feb 1900", "29.02.2000", "28.2.1900 - 29", "1900", "29 february 1900 8:00"]
     texts += [(t, (2018, 3, 7, 12, 43)) for t in hazards]
-    tss = [(2018, 3, 7, 12, 43), (2020, 2, 29, 23, 59), (2019, 1, 31, 0, 0), (2018, 12, 31, 12, 0), (2023, 11, 5, 20, 30)]
+    # reference times in a century year that is not a leap year (2100): year-less dates take their year from it
+    texts += [(t, (2100, 2, 10, 9, 0)) for t in ["29.2.", "15.2. - 29.", "29. feb", "28.2. - 29.2.", "feb 29 8pm", "29.", "29.2. for 1 day"]]
+    texts += [(t, (2100, 2, 28, 23, 59)) for t in ["tomorrow", "29.", "29.2.", "in 1 day"[3:]]]
+    tss = [(2018, 3, 7, 12, 43), (2020, 2, 29, 23, 59), (2019, 1, 31, 0, 0), (2018, 12, 31, 12, 0), (2023, 11, 5, 20, 30),
+           (2100, 2, 27, 10, 0), (2000, 2, 28, 10, 0)]
     for t in G.soups(rnd, 400 if ctx.quick else 4000):
         texts.append((t, rnd.choice(tss)))
     cases = []
